@@ -357,4 +357,45 @@ Proof.
     destruct (t_committed (tc_t (nstate i (run ++ ext1)))) eqn:Ec; [|apply C2; reflexivity].
     apply C3. apply D1; [exact Hf|reflexivity].
 Qed.
+
+(* ---- from the leader's NEW_VIEW to the commit ----
+   The leader of v is in v holding its proposal (v, h) and has sent the message m that carries it (its NEW_VIEW, or its
+   PREPREPARE in view 0). Whenever m, delivered to the other members of Q in their present states, makes them accept the
+   proposal - which is what C11 / Live.honest_new_view_is_accepted establish for a correct elected leader's NEW_VIEW
+   and members whose view is not higher and that hold no proposal for v - the schedule "m to every member, then their
+   PREPAREs, then their COMMITs" is a run at whose end all of Q have committed. *)
+Definition prop_msgs (m : msg) (i : N) : list msg := if N.eqb i Ld then [] else [m].
+Definition deliveries_of_proposal (m : msg) : list gev := flat_map (fun i => deliveries i (prop_msgs m i)) Q.
+
+Lemma joined_ext run run' i : nstate i run' = nstate i run -> joined run i -> joined run' i.
+Proof. intros E0 [J1 J2 J3]. constructor; rewrite E0; assumption. Qed.
+
+Theorem proposal_delivered_then_commits run m :
+  wrun run -> In Ld Q -> joined run Ld ->
+  msg_height m = H -> msg_sender m = Ld -> auth_msg run m ->
+  (forall i, In i Q -> i <> Ld -> accepted (cfg i) (thandle (cfg i) None false (nstate i run) m) v h) ->
+  exists ext, wrun (run ++ deliveries_of_proposal m ++ ext) /\
+    (forall g, In g (deliveries_of_proposal m ++ ext) -> In (fst g) Q /\ exists m', snd g = TMsg m' None false) /\
+    forall i, In i Q -> t_committed (tc_t (nstate i (run ++ deliveries_of_proposal m ++ ext))) = true /\
+                        (t_committed (tc_t (nstate i (run ++ deliveries_of_proposal m))) = false ->
+                         In (v, h) (D (nstate i (run ++ deliveries_of_proposal m ++ ext)))).
+Proof.
+  intros Hr HL JL Hh Hs Ha Hacc.
+  assert (HQ : forall i, In i Q -> good i /\ forall m', In m' (prop_msgs m i) -> msg_height m' = H /\ msg_sender m' <> i /\ auth_msg run m').
+  { intros i Hi. split; [apply Qgood; exact Hi|]. intros m' Hm'. unfold prop_msgs in Hm'. destruct (N.eqb_spec i Ld) as [->|Hne]; [destruct Hm'|].
+    destruct Hm' as [<-|[]]. split; [exact Hh|]. split; [rewrite Hs; congruence|exact Ha]. }
+  destruct (deliver_all (prop_msgs m) Q run Hr Qnd HQ) as (A1 & A2 & A3 & A4). cbn zeta in *.
+  fold (deliveries_of_proposal m) in *. set (run1 := run ++ deliveries_of_proposal m) in *.
+  assert (HJ : forall i, In i Q -> joined run1 i).
+  { intros i Hi. destruct (N.eq_dec i Ld) as [->|Hne].
+    - apply (joined_ext run run1); [|exact JL]. rewrite (A2 _ Hi). unfold prop_msgs. rewrite N.eqb_refl. reflexivity.
+    - apply (accepted_joined run1 i A1 (Qgood i Hi)). rewrite (A2 _ Hi). unfold prop_msgs. destruct (N.eqb_spec i Ld); [contradiction|].
+      cbn [fold_left]. apply Hacc; assumption. }
+  destruct (good_view_commits run1 A1 HJ) as (ext & B1 & B2 & _ & B4).
+  exists ext. subst run1. rewrite <- app_assoc in *. split; [exact B1|]. split.
+  - intros g Hg. apply in_app_or in Hg. destruct Hg as [Hg|Hg]; [|apply B2; exact Hg].
+    unfold deliveries_of_proposal in Hg. apply in_flat_map in Hg. destruct Hg as (i & Hi & Hg). unfold deliveries in Hg. apply in_map_iff in Hg.
+    destruct Hg as (m' & <- & _). cbn [fst snd]. eauto.
+  - intros i Hi. destruct (B4 i Hi) as [C1 C2]. split; [exact C1|exact C2].
+Qed.
 End LW.
